@@ -455,6 +455,8 @@ func (te *TEnv) call(x ECall) TV {
 			now = te.old.st.now
 		}
 		return TV{T(SBool, "(and (>= (birth %s) %s) (not (= %s null)))", t.S, now.S, t.S), nil}
+	case "birth":
+		return TV{T(SInt, "(birth %s)", te.term(arg(0)).S), nil}
 	case "allocated":
 		// allocated(r): r existed in the old state
 		t := te.term(arg(0))
